@@ -19,6 +19,6 @@ for sd in $seeds; do
     [ $rc -ne 0 ] && line="$line $p=$rc"
   done
   echo "$line"
-done | tee /verif/seeded/matrix.txt
+done | tee -a /verif/seeded/matrix.new
 git -C /repo worktree remove --force $WT
 rm -rf $SNAP
